@@ -95,10 +95,13 @@ class Configuration:
             np.random.default_rng(self.seed)
             random.seed(self.seed)
         else:
-            not_deterministic_seed = (os.getpid() * int(time.time())) % 123456789
-            np.random.seed(not_deterministic_seed)
-            np.random.default_rng(not_deterministic_seed)
-            random.seed(not_deterministic_seed)
+            # one seed per (process, second). The former `(pid * now) % 123456789` gave two processes the same
+            # seed whenever 123456789 divides (pid1 - pid2) * now: all the workers of a pool when `now` is a
+            # multiple of 123456789
+            pid, now = os.getpid(), int(time.time())
+            np.random.seed([pid, now])
+            np.random.default_rng([pid, now])
+            random.seed(pid * 2**32 + now)
 
     def initialisation(self, product: Product) -> None:
         self.control_variates.initialisation(type(product.payoff_underlying))
